@@ -397,3 +397,33 @@ theorem unpackAlt_packAlt : ∀ (ts : List Ty) (i : Nat) (v : Val) (rest : Bytes
 end
 
 end OpmVerif.Serial
+
+namespace OpmVerif.Serial
+
+/-! ### corollaries -/
+
+theorem unpack_pack_nil (t : Ty) (v tgt : Val) (hv : wt t v = true) (hf : fresh t tgt = true) :
+    unpack t tgt (pack t v) = .ok (v, []) := by
+  have := unpack_pack t v tgt [] hv hf
+  simpa using this
+
+theorem roundTrip_eq (t : Ty) (v : Val) (hv : wt t v = true) : roundTrip t v = .ok (v, size t v) := by
+  unfold roundTrip
+  rw [unpack_pack_nil t v (dflt t) hv (fresh_dflt t)]
+  simp [pack_length t v hv]
+
+theorem repack_of_unpack (t : Ty) (v v' : Val) (rest : Bytes) (hv : wt t v = true)
+    (h : unpack t (dflt t) (pack t v) = .ok (v', rest)) : pack t v' = pack t v ∧ rest = [] := by
+  rw [unpack_pack_nil t v (dflt t) hv (fresh_dflt t)] at h
+  cases h
+  exact ⟨rfl, rfl⟩
+
+theorem pack_inj (t : Ty) (v v' : Val) (r r' : Bytes) (hv : wt t v = true) (hv' : wt t v' = true)
+    (h : pack t v ++ r = pack t v' ++ r') : v = v' ∧ r = r' := by
+  have h1 := unpack_pack t v (dflt t) r hv (fresh_dflt t)
+  have h2 := unpack_pack t v' (dflt t) r' hv' (fresh_dflt t)
+  rw [h, h2] at h1
+  cases h1
+  exact ⟨rfl, rfl⟩
+
+end OpmVerif.Serial
